@@ -33,7 +33,8 @@ example : defaultBreak '\\' = true ∧ dqSpecial '\\' = true := by decide
 
 /-! ### the word extractor and the quote scanner invert the escape function -/
 
-/-- Syntactic, decidable condition on what is typed before the partial path in the bare context:
+/-- For the public helper `extract_word` (reverse scan, quotes not interpreted).
+    Syntactic, decidable condition on what is typed before the partial path in the bare context:
     nothing, or a break character other than the escape character that is preceded by an even
     number (possibly zero) of escape characters. -/
 def C15_unquoted (e : Char) (B : Char → Bool) (pre : Text) : Bool :=
@@ -94,20 +95,71 @@ theorem C15_bare_opens_no_quote (B : Char → Bool) (h1 : B '"' = true) (h2 : B 
   simp only [scanGo_append, hm]
   simp [scanGo_escaped_bare B h1 h2 h3]
 
+/-! ### the completer's own scan (`bare_word_start`, D26 repaired): one reading with the quote scanner -/
+
+/-- Decidable condition on what is typed before the partial path in the bare context, for the
+    completer: its scan, run on the prefix alone, ends outside quotes and escapes with the empty
+    word (nothing typed, or the last thing read is a break character that is neither escaped nor
+    quoted - a blank, `=`, a closing quote …). -/
+def C15_bare_prefix (B : Char → Bool) (pre : Text) : Bool :=
+  bareGo B pre 0 .normal 0 == (.normal, blen pre)
+
+/-- The completer's word scan and `find_unclosed_quote` agree about what is quoted: their loops
+    are in the same mode at the cursor, for every text and every break set. -/
+theorem C15_scanners_agree (B : Char → Bool) (l : Text) :
+    (bareGo B l 0 .normal 0).1 = (scanGo l 0 .normal 0).1 :=
+  bareGo_mode B l 0 0 0 0 .normal
+
+/-- … hence a bare prefix is a closed one -/
+theorem C15_bare_prefix_closed (B : Char → Bool) (pre : Text) (h : C15_bare_prefix B pre = true) :
+    C15_closed pre = true := by
+  have h' : bareGo B pre 0 .normal 0 = (.normal, blen pre) := by simpa [C15_bare_prefix] using h
+  have := C15_scanners_agree B pre
+  rw [h'] at this
+  simp [C15_closed, ← this]
+
+/-- The prefix condition composes: whatever stands before (closed quoted segments ending in
+    backslashes included), once the scan is outside quotes and escapes, one more break character
+    that is not a backslash or a quote makes a bare prefix. -/
+theorem C15_bare_prefix_after_break (B : Char → Bool) (pre : Text) (b : Char)
+    (hm : (bareGo B pre 0 .normal 0).1 = .normal) (hb : B b = true)
+    (h1 : b ≠ '"') (h2 : b ≠ '\\') (h3 : b ≠ '\'') :
+    C15_bare_prefix B (pre ++ [b]) = true := by
+  unfold C15_bare_prefix
+  rw [bareGo_append, hm]
+  simp [bareGo, bareStep, h1, h2, h3, hb]
+
+/-- The slice `&line[start..pos]` taken by `complete_path` never panics: the scan ends on a
+    character boundary, for every line and every break set. -/
+theorem C15_bare_word_total (B : Char → Bool) (l : Text) :
+    ∃ a w, l = a ++ w ∧ splitAtByte l (bareWordStart B l) = some (a, w) := by
+  obtain ⟨a, w, h1, _, h3⟩ := bareWordStart_split B l
+  exact ⟨a, w, h1, h3⟩
+
+/-- Bare context, completer.  After a bare prefix, with the cursor at the end of the inserted
+    (escaped) text, the completer's scan starts the word exactly at the inserted text — for every
+    text `s`, whatever blanks, quotes, backslashes or multi-byte characters it has. -/
+theorem C15_completer_inverts (B : Char → Bool) (h1 : B '"' = true) (h2 : B '\\' = true)
+    (h3 : B '\'' = true) (pre s : Text) (hpre : C15_bare_prefix B pre = true) :
+    bareWordStart B (pre ++ escape (some '\\') B .none s) = blen pre := by
+  rw [escape_eq_flatMap '\\' B .none (by decide)]
+  exact bareWordStart_escaped B h1 h2 h3 pre s (by simpa [C15_bare_prefix] using hpre)
+
 /-! ### `complete_path` reads an inserted replacement back as the same path -/
 
 /-- Bare: the parse step of `complete_path` on `pre ++ escape path` yields `path` again, the same
-    start, the bare context. -/
+    start, the bare context.  (Since the repair of D26 the only hypothesis on the prefix is the
+    completer's own: `C15_bare_prefix`, which implies `C15_closed`.) -/
 theorem C15_reparse_bare (B D : Char → Bool) (h1 : B '"' = true) (h2 : B '\\' = true)
-    (h3 : B '\'' = true) (pre path : Text)
-    (hc : C15_closed pre = true) (hu : C15_unquoted '\\' B pre = true) :
+    (h3 : B '\'' = true) (pre path : Text) (hu : C15_bare_prefix B pre = true) :
     parsePath B D (pre ++ escape (some '\\') B .none path)
         (blen (pre ++ escape (some '\\') B .none path))
       = some (blen pre, path, some '\\', B, Quote.none) := by
   unfold parsePath
   rw [splitAtByte_full]
-  simp only [C15_bare_opens_no_quote B h1 h2 h3 pre path hc,
-    C15_extract_inverts '\\' B h2 pre path hu, C15_unescape_escape '\\' B h2 .none (by decide)]
+  simp only [C15_bare_opens_no_quote B h1 h2 h3 pre path (C15_bare_prefix_closed B pre hu),
+    C15_completer_inverts B h1 h2 h3 pre path hu, splitAtByte_append,
+    C15_unescape_escape '\\' B h2 .none (by decide)]
 
 /-- Double quote: same, the start is right after the quote. -/
 theorem C15_reparse_double (B D : Char → Bool) (h1 : D '"' = true) (h2 : D '\\' = true)
@@ -154,15 +206,14 @@ theorem C15_offered_again (B D : Char → Bool) (fs : Listing) (path : Text) (es
     inserting `r` in place of the word, completing at the end of `pre ++ r` starts at the same
     place and offers `d` with the same replacement. -/
 theorem C15_offered_again_bare (B D : Char → Bool) (h1 : B '"' = true) (h2 : B '\\' = true)
-    (h3 : B '\'' = true) (fs : Listing) (pre path : Text)
-    (hc : C15_closed pre = true) (hu : C15_unquoted '\\' B pre = true)
+    (h3 : B '\'' = true) (fs : Listing) (pre path : Text) (hu : C15_bare_prefix B pre = true)
     (ms : List (Text × Text)) (h : filenameComplete fs path (some '\\') B .none = some ms)
     (d r : Text) (hm : (d, r) ∈ ms) (hd : '/' ∉ d)
     (hr : r = escape (some '\\') B .none ((splitPath path).1 ++ d)) :
     ∃ cs, completePath B D fs (pre ++ r) (blen (pre ++ r)) = .ok (blen pre, cs) ∧ (d, r) ∈ cs := by
   subst hr
   exact C15_offered_again B D fs path _ B .none ms h d _ hm hd _ _
-    (C15_reparse_bare B D h1 h2 h3 pre _ hc hu)
+    (C15_reparse_bare B D h1 h2 h3 pre _ hu)
 
 /-- Double-quote context, end to end (the line is `pre`, the opening quote, the replacement). -/
 theorem C15_offered_again_double (B D : Char → Bool) (h1 : D '"' = true) (h2 : D '\\' = true)
@@ -203,21 +254,36 @@ example :
     = some [("x y".toList, "x y/".toList)] := by decide
 
 /-! non-vacuity: typical prefixes satisfy the hypotheses, the awkward ones do or do not as they should -/
-example : C15_unquoted '\\' defaultBreak "ls -l ".toList = true ∧ C15_closed "ls -l ".toList = true := by decide
-example : C15_unquoted '\\' defaultBreak "x=".toList = true ∧ C15_closed "x=".toList = true := by decide
-example : C15_unquoted '\\' defaultBreak "a\\ b ".toList = true ∧ C15_closed "a\\ b ".toList = true := by decide
-example : C15_unquoted '\\' defaultBreak "\"a b\" ".toList = true ∧ C15_closed "\"a b\" ".toList = true := by decide
+example : C15_bare_prefix defaultBreak "ls -l ".toList = true ∧ C15_unquoted '\\' defaultBreak "ls -l ".toList = true
+    ∧ C15_closed "ls -l ".toList = true := by decide
+example : C15_bare_prefix defaultBreak "x=".toList = true ∧ C15_unquoted '\\' defaultBreak "x=".toList = true := by decide
+example : C15_bare_prefix defaultBreak "a\\ b ".toList = true ∧ C15_unquoted '\\' defaultBreak "a\\ b ".toList = true := by
+  decide
+example : C15_bare_prefix defaultBreak "\"a b\" ".toList = true ∧ C15_unquoted '\\' defaultBreak "\"a b\" ".toList = true := by
+  decide
 /-- D24 (fixed): an escaped backslash followed by a real blank is an unquoted prefix … -/
-example : C15_unquoted '\\' defaultBreak "q\\\\ ".toList = true ∧ C15_closed "q\\\\ ".toList = true := by decide
+example : C15_unquoted '\\' defaultBreak "q\\\\ ".toList = true ∧ C15_bare_prefix defaultBreak "q\\\\ ".toList = true := by
+  decide
 /-- … and the word after it is found (before the fix this was `some (2, "\\ a")`) -/
 example : extractWord "q\\\\ a".toList 5 (some '\\') defaultBreak = some (4, "a".toList) := by decide
-/-- an escaped blank is not the end of a prefix -/
-example : C15_unquoted '\\' defaultBreak "q\\ ".toList = false := by decide
-/-- D26 (known finding): the prefix `'\'` is closed for the scanner, and is not an unquoted
-    prefix for the word extractor; the two disagree on the line `'\'a` -/
-example : C15_closed "'\\'".toList = true ∧ C15_unquoted '\\' defaultBreak "'\\'".toList = false := by decide
+/-- an escaped blank is not the end of a prefix; nor is a blank inside an open quote for the completer -/
+example : C15_unquoted '\\' defaultBreak "q\\ ".toList = false ∧ C15_bare_prefix defaultBreak "q\\ ".toList = false
+    ∧ C15_bare_prefix defaultBreak "'a ".toList = false := by decide
+/-- D26: the prefix `'\'` (a single-quoted backslash) is closed for the quote scanner and, since the
+    repair, a bare prefix for the completer; it is not an unquoted prefix for the public helper
+    `extract_word`, whose reverse scan does not interpret quotes … -/
+example : C15_closed "'\\'".toList = true ∧ C15_bare_prefix defaultBreak "'\\'".toList = true
+    ∧ C15_bare_prefix defaultBreak "'a\\' ".toList = true
+    ∧ C15_unquoted '\\' defaultBreak "'\\'".toList = false := by decide
+/-- … the helper and the quote scanner disagree on the line `'\'a` (by design of the helper) … -/
 example : findUnclosedQuote "'\\'a".toList = none
     ∧ extractWord "'\\'a".toList 4 (some '\\') defaultBreak = some (1, "\\'a".toList) := by decide
+/-- … and the completer (repaired) reads the word `a` at 3; before the repair its parse step gave
+    `some (1, "'a", …)` and it looked for names starting with `'a` -/
+example : (parsePath defaultBreak dqSpecial "'\\'a".toList 4).map (fun r => (r.1, r.2.1, r.2.2.2.2))
+      = some (3, "a".toList, Quote.none) := by decide
+example : (parsePath defaultBreak dqSpecial "ls '\\\\\\'\\ a".toList 11).map (fun r => (r.1, r.2.1, r.2.2.2.2))
+      = some (8, " a".toList, Quote.none) := by decide
 example : defaultBreak '"' = true ∧ defaultBreak '\\' = true ∧ defaultBreak '\'' = true
     ∧ dqSpecial '"' = true ∧ dqSpecial '\\' = true := by decide
 
@@ -291,18 +357,91 @@ example : lcpLoop (["fée".toList, "fèe".toList].map bytes) 5 0 = 2 := by decid
 example : longestCommonPrefix ["é".toList, "è".toList] = some none := by decide
 example : longestCommonPrefix ["".toList] = some (some []) := by decide
 
-/-! ### the full agreement with the declarative reader does not hold on the current tree (D26) -/
+/-! ### full agreement of the completer with the declarative reader (D26 repaired) -/
 
-/-- Full statement: on every line that the declarative reader (`Spec.Completion.lex`) reads as a
-    bare, plain word before the cursor, `extract_word` reports that word.  It is what
-    `C15_extract_inverts` would become without its syntactic hypothesis on the prefix. -/
+/-- On every text before the cursor - bare, inside an open quote, cut after a backslash, plain or
+    not - the completer's scan starts the word exactly where the declarative reader
+    (`Spec.Completion.lex`) starts the partial path. -/
+theorem C15_word_start_is_readers (l : Text) :
+    bareWordStart defaultBreak l = (Spec.Completion.lex defaultBreak l).start := by
+  unfold bareWordStart
+  rw [bareGo_lex]
+
+/-- … and in the mode the reader is in (bare / after a bare backslash / inside `"` / after a
+    backslash inside `"` / inside `'`), which by `C15_scanners_agree` is also the mode of
+    `find_unclosed_quote`: one reading of the line for all three. -/
+theorem C15_word_mode_is_readers (l : Text) :
+    (bareGo defaultBreak l 0 .normal 0).1 = modeOf (Spec.Completion.lex defaultBreak l).mode := by
+  rw [bareGo_lex]
+
+/-- the word the completer's scan reports for the text before the cursor: (start, `line[start..pos]`) -/
+def C15_completerWord (B : Char → Bool) (l : Text) : Option (Nat × Text) :=
+  (splitAtByte l (bareWordStart B l)).map (fun p => (bareWordStart B l, p.2))
+
+/-- On every line that the declarative reader reads as a bare, plain word before the cursor, the
+    completer's scan reports that word. -/
+theorem C15_completer_word_agrees (l : Text) (w : Nat × Text)
+    (h : Spec.Completion.expectedWord defaultBreak l = some w) :
+    C15_completerWord defaultBreak l = some w := by
+  unfold C15_completerWord
+  rw [C15_word_start_is_readers]
+  unfold Spec.Completion.expectedWord at h
+  simp only at h
+  split at h
+  · exact h
+  · cases h
+
+/-- End to end for the parse step of `complete_path`: on such a line no quote is reported open, the
+    start is the reader's, the path is the unescaped word, the context is the bare one. -/
+theorem C15_completer_parse_agrees (D : Char → Bool) (l : Text) (w : Nat × Text)
+    (h : Spec.Completion.expectedWord defaultBreak l = some w) :
+    parsePath defaultBreak D l (blen l)
+      = some (w.1, unescape (some '\\') w.2, some '\\', defaultBreak, Quote.none) := by
+  have hw := C15_completer_word_agrees l w h
+  have hq : findUnclosedQuote l = none := by
+    have hm := (C15_scanners_agree defaultBreak l).symm.trans (C15_word_mode_is_readers l)
+    unfold Spec.Completion.expectedWord at h
+    simp only at h
+    split at h
+    · rename_i hc
+      have hctx := hc.1
+      unfold findUnclosedQuote
+      simp only [hm]
+      revert hctx
+      unfold Spec.Completion.Lexed.ctx
+      cases (Spec.Completion.lex defaultBreak l).mode <;> simp [modeOf]
+    · cases h
+  unfold parsePath
+  rw [splitAtByte_full]
+  simp only [hq]
+  unfold C15_completerWord at hw
+  cases hs : splitAtByte l (bareWordStart defaultBreak l) with
+  | none => simp [hs] at hw
+  | some p =>
+    simp only [hs, Option.map_some, Option.some.injEq] at hw
+    subst hw
+    rfl
+
+/-- non-vacuity: the reader does expect a word on the line that used to fail, and on a line with
+    escaped blanks after a closed double quote -/
+example : Spec.Completion.expectedWord defaultBreak "'\\'a".toList = some (3, "a".toList) := by decide
+example : Spec.Completion.expectedWord defaultBreak "\"x y\" a\\ b".toList = some (6, "a\\ b".toList) := by
+  decide
+
+/-! ### the public helper `extract_word` keeps its documented reverse scan -/
+
+/-- The same statement about the public helper `extract_word`: on every line that the declarative
+    reader reads as a bare, plain word before the cursor, `extract_word` reports that word. -/
 def C15_word_agrees_statement : Prop :=
   ∀ (l : Text) (w : Nat × Text), Spec.Completion.expectedWord defaultBreak l = some w →
     extractWord l (blen l) (some '\\') defaultBreak = some w
 
-/-- Counter-example (known finding D26, replayed on the implementation by corpus/C15.txt): the
-    line `'\'a`.  The quote scanner and the declarative reader see a closed quote followed by the
-    word `a` at 3; the reverse scan of `extract_word` takes the closing quote for an escaped one. -/
+/-- It does not hold, by design of the helper: its documented contract is a reverse scan over break
+    and escape characters that does not interpret quotes (third-party completers call it on
+    ordinary text).  Counter-example: the line `'\'a`; the reader and the completer see a closed
+    quote followed by the word `a` at 3, the helper takes the closing quote for an escaped break
+    character.  The completer no longer uses the helper (D26); the correspondence check judges the
+    helper against the quote-blind reader `Spec.Completion.expectedWordHelper`. -/
 theorem C15_word_agrees_counterexample : ¬ C15_word_agrees_statement := by
   intro h
   have h1 := h "'\\'a".toList (3, "a".toList) (by decide)
